@@ -29,6 +29,9 @@ type SMsg struct {
 	// Compression (only honoured when negotiated).
 	Compressed bool        `json:"compressed,omitempty"`
 	Segs       []wsref.Seg `json:"segs,omitempty"`
+	// FragAtFlush: a compressed message is fragmented exactly where its deflate
+	// segments end (block boundaries), instead of by Frags.
+	FragAtFlush bool `json:"frag_at_flush,omitempty"`
 	BFinal     bool        `json:"bfinal,omitempty"`
 	Level      int         `json:"level,omitempty"`
 	KeyMode    string      `json:"keymode,omitempty"` // rand | zero | ff | payload
@@ -133,13 +136,24 @@ func BuildStream(s Stream, masked, compression bool) *Model {
 		app := sm.Data.Bytes()
 		wirePayload := app
 		comp := sm.Compressed && compression
+		frags := sm.Frags
 		if comp {
-			wirePayload = wsref.DeflateMessage(app, sm.Segs, sm.BFinal, sm.Level)
+			var bounds []int
+			wirePayload, bounds = wsref.DeflateMessageBounds(app, sm.Segs, sm.BFinal, sm.Level)
+			if sm.FragAtFlush && len(bounds) > 0 {
+				// fragment exactly at the deflate block boundaries
+				frags = nil
+				prev := 0
+				for _, b := range bounds {
+					frags = append(frags, b-prev)
+					prev = b
+				}
+			}
 		}
 		// fragment sizes
 		var sizes []int
 		rest := len(wirePayload)
-		for _, f := range sm.Frags {
+		for _, f := range frags {
 			if f > rest {
 				f = rest
 			}
@@ -293,6 +307,7 @@ func genSMsg(t *rapid.T, o SGenOpts) SMsg {
 			m.Level = rapid.IntRange(-2, 9).Draw(t, "bflevel")
 		} else {
 			m.Segs = genSegs(t, n)
+			m.FragAtFlush = rapid.IntRange(0, 3).Draw(t, "frag_at_flush") == 0
 		}
 	}
 	// fragmentation
